@@ -85,6 +85,9 @@ def run(ctx) -> None:
   ctx.rule('R5', 'feasibility dispatch total with matching accessors; exact handler; exact integrality test', 4)
   ctx.rule('R6', 'Study.add_trial validates against the freshly fetched search space before the service call', 1)
   ctx.rule('R7', 'sequential walk validates every chosen value', 2)
+  ctx.rule('R11', '"has children" is decided on child parameter configs, never on the `_children` table being non-empty '
+           '(subspace() look-ups leave empty entries there)', 1)
+  ctx.rule('R10', 'subspaces are looked up under the internal representation of the parent value (the representation they are stored under)', 2)
   ctx.rule('R9', 'a copy of a config / search space that is then modified in place is a deep copy (a shallow copy shares the '
            'children tables with the original)', 1)
   ctx.rule('R8', 'one ParameterConfig object per subspace: `.add(x)` inside a loop gets a new object per innermost iteration', 4)
@@ -102,6 +105,8 @@ def run(ctx) -> None:
   r7_walk(ctx, pc)
   r8_unique_config_objects(ctx, ss)
   r9_deep_clones(ctx)
+  r10_children_keys(ctx)
+  r11_children_emptiness(ctx)
 
 
 # ----------------------------------------------------------------------- R8
@@ -271,6 +276,97 @@ def r1_factory(ctx, mod, pc) -> None:
   ctx.check(mixed, 'R1', 'mixed value kinds rejected', fi.node,
             'every path from "feasible values given" to the constructor passes one of the two normalisers (anything else raises)',
             'mixed numeric/string feasible values are accepted', construct='mixed', func=fi.qualname)
+
+
+def r11_children_emptiness(ctx) -> None:
+  mod = ctx.index.need_module(PCMOD)
+  n = 0
+  bad = []
+  for ci in mod.classes.values():
+    for m in ci.methods.values():
+      for x in ast.walk(m.node):
+        # truthiness / len / any over `<obj>._children`
+        subj = None
+        if isinstance(x, (ast.If, ast.IfExp, ast.While)):
+          t = x.test
+          parts = t.values if isinstance(t, ast.BoolOp) else [t]
+          for p_ in parts:
+            q_ = p_.operand if isinstance(p_, ast.UnaryOp) and isinstance(p_.op, ast.Not) else p_
+            if isinstance(q_, ast.Attribute) and q_.attr == '_children':
+              subj = q_
+        if isinstance(x, ast.Call) and dotted(x.func) in ('any', 'all', 'bool', 'len') and x.args:
+          a = x.args[0]
+          elt = a.elt if isinstance(a, (ast.GeneratorExp, ast.ListComp)) else a
+          if isinstance(elt, ast.Attribute) and elt.attr == '_children':
+            subj = elt
+        if subj is not None:
+          bad.append((m, x))
+      if m.name in ('is_conditional',):
+        n += 1
+  ctx.check(not bad, 'R11', 'conditionality is decided on child parameter configs', mod.tree,
+            'no truthiness / len / any over a `_children` table',
+            (f'{bad[0][0].qualname}: `{unparse(bad[0][1], 70)}` treats a non-empty `_children` table as "has children": ParameterConfig.subspace(v) inserts an '
+             'empty SearchSpace for every value that was merely looked up, so a flat space reports is_conditional == True afterwards (and designers '
+             'that refuse conditional spaces refuse it)') if bad else '', construct='children-table-truthiness',
+            func=bad[0][0].qualname if bad else None)
+  if n < 1:
+    raise AnalysisError('SearchSpace.is_conditional not found')
+
+
+def r10_children_keys(ctx) -> None:
+  """`_children` is keyed by internal values ('True', 2.0): a look-up with the caller's value (True, 2) silently misses, and
+  the `.get(value, SearchSpace())` default turns the miss into "no children" - a conditional child is accepted / refused wrongly."""
+  mod = ctx.index.need_module(PCMOD)
+  ci = mod.classes.get('ParameterConfig')
+  n = 0
+  for m in ci.methods.values():
+    params = [p_ for p_ in m.params if p_ != 'self']
+    g = None
+    for x in ast.walk(m.node):
+      key = None
+      if isinstance(x, ast.Subscript) and dotted(x.value) == 'self._children':
+        key = x.slice
+      elif isinstance(x, ast.Call) and isinstance(x.func, ast.Attribute) and x.func.attr in ('get', 'pop', 'setdefault') \
+          and dotted(x.func.value) == 'self._children' and x.args:
+        key = x.args[0]
+      elif isinstance(x, ast.Compare) and len(x.ops) == 1 and isinstance(x.ops[0], (ast.In, ast.NotIn)) and dotted(x.comparators[0]) == 'self._children':
+        key = x.left
+      if key is None:
+        continue
+      if g is None:
+        g = cfgmod.CFG(m.node)
+        rd = flow.ReachingDefs(g)
+      node = g.node_of(x)
+      # a key that is (on every reaching definition) a parameter as given is a raw caller value
+      raw = False
+      if isinstance(key, ast.Name) and node is not None:
+        if key.id not in params:
+          continue  # loop variables over stored keys / matching values: already internal
+
+        def is_cast(name, at, depth=0) -> bool:
+          defs = rd.at(at, name)
+          if not defs or depth > 5:
+            return False
+          for d in defs:
+            if d.node_id < 0 or d.kind != 'assign' or d.value is None:
+              return False  # the parameter as given (or something opaque)
+            if any(isinstance(c_, ast.Call) and isinstance(c_.func, ast.Attribute) and c_.func.attr == 'cast_as_internal' for c_ in ast.walk(d.value)):
+              continue
+            if isinstance(d.value, ast.Name) and is_cast(d.value.id, g.nodes[d.node_id], depth + 1):
+              continue
+            return False
+          return True
+        raw = not is_cast(key.id, node)
+      elif not isinstance(key, ast.Name):
+        continue
+      n += 1
+      ctx.check(not raw, 'R10', f'ParameterConfig.{m.name}: `_children` look-up key', x,
+                'the key was cast with ParameterValue(..).cast_as_internal(self.type)',
+                f'`{unparse(x, 60)}` uses the value as the caller passed it: subspaces are stored under internal values (\'True\', 2.0), so True or 2 '
+                'find nothing and the parameter looks unconditional (children of a matching parent are refused, missing ones accepted)',
+                construct=f'{m.name}:raw-children-key', func=m.qualname)
+  if n < 2:
+    raise AnalysisError(f'ParameterConfig: only {n} keyed look-ups of `_children` by a parameter found')
 
 
 def r9_deep_clones(ctx) -> None:
